@@ -632,8 +632,9 @@ class Gen:
             if f == "counter" and ints:
                 x = r.choice(ints + [self.fresh()])
                 return [("from", lit("0"), lit("2"), x, self.block(env, depth + 1) if depth < 3 else [])]
-            if f == "unwrap" and opts and ints:
-                return [("expr", ("unwrap", ("var", r.choice(opts + ints)), ("var", r.choice(opts))))]
+            if f == "unwrap" and opts:
+                # the target is optional-typed as well: `int ?= int?` is a TYPE error (the target could not hold nil)
+                return [("expr", ("unwrap", ("var", r.choice(opts)), ("var", r.choice(opts))))]
             if f == "unpack":
                 names = []
                 for _ in range(r.choice([2, 2, 3])):
